@@ -1160,6 +1160,14 @@ static void array_initializer2(Token **rest, Token *tok, Initializer *init, int 
   *rest = tok;
 }
 
+// Unnamed bit-fields are not members that can be initialized; they
+// are skipped by positional initializers.
+static Member *skip_unnamed_bitfields(Member *mem) {
+  while (mem && mem->is_bitfield && !mem->name)
+    mem = mem->next;
+  return mem;
+}
+
 // struct-initializer1 = "{" initializer ("," initializer)* ","? "}"
 static void struct_initializer1(Token **rest, Token *tok, Initializer *init) {
   tok = skip(tok, "{");
@@ -1179,6 +1187,7 @@ static void struct_initializer1(Token **rest, Token *tok, Initializer *init) {
       continue;
     }
 
+    mem = skip_unnamed_bitfields(mem);
     if (mem) {
       initializer2(&tok, tok, init->children[mem->idx]);
       mem = mem->next;
@@ -1195,6 +1204,9 @@ static void struct_initializer2(Token **rest, Token *tok, Initializer *init, Mem
   bool first = (mem == init->ty->members);
 
   for (; mem && !is_end(tok); mem = mem->next) {
+    if (mem->is_bitfield && !mem->name)
+      continue;
+
     Token *start = tok;
 
     if (!first)
